@@ -470,6 +470,10 @@ spif_dlinked_list_dup(spif_dlinked_list_t self)
     ASSERT_RVAL(!SPIF_LIST_ISNULL(self), (spif_dlinked_list_t) NULL);
     tmp = spif_dlinked_list_new();
     memcpy(tmp, self, SPIF_SIZEOF_TYPE(dlinked_list));
+    if (SPIF_DLINKED_LIST_ITEM_ISNULL(self->head)) {
+        /* Nothing to copy. */
+        return tmp;
+    }
     tmp->head = spif_dlinked_list_item_dup(self->head);
     for (src = self->head, dest = tmp->head, prev = (spif_dlinked_list_item_t) NULL;
          src->next;
@@ -477,8 +481,10 @@ spif_dlinked_list_dup(spif_dlinked_list_t self)
         dest->next = spif_dlinked_list_item_dup(src->next);
         dest->prev = prev;
     }
+    /* dest is the copy of the last item. */
     dest->next = (spif_dlinked_list_item_t) NULL;
-    tmp->tail = prev;
+    dest->prev = prev;
+    tmp->tail = dest;
     return tmp;
 }
 
@@ -491,6 +497,10 @@ spif_dlinked_list_vector_dup(spif_dlinked_list_t self)
     ASSERT_RVAL(!SPIF_VECTOR_ISNULL(self), (spif_dlinked_list_t) NULL);
     tmp = spif_dlinked_list_vector_new();
     memcpy(tmp, self, SPIF_SIZEOF_TYPE(dlinked_list));
+    if (SPIF_DLINKED_LIST_ITEM_ISNULL(self->head)) {
+        /* Nothing to copy. */
+        return tmp;
+    }
     tmp->head = spif_dlinked_list_item_dup(self->head);
     for (src = self->head, dest = tmp->head, prev = (spif_dlinked_list_item_t) NULL;
          src->next;
@@ -498,8 +508,10 @@ spif_dlinked_list_vector_dup(spif_dlinked_list_t self)
         dest->next = spif_dlinked_list_item_dup(src->next);
         dest->prev = prev;
     }
+    /* dest is the copy of the last item. */
     dest->next = (spif_dlinked_list_item_t) NULL;
-    tmp->tail = prev;
+    dest->prev = prev;
+    tmp->tail = dest;
     return tmp;
 }
 
@@ -512,6 +524,10 @@ spif_dlinked_list_map_dup(spif_dlinked_list_t self)
     ASSERT_RVAL(!SPIF_MAP_ISNULL(self), (spif_dlinked_list_t) NULL);
     tmp = spif_dlinked_list_map_new();
     memcpy(tmp, self, SPIF_SIZEOF_TYPE(dlinked_list));
+    if (SPIF_DLINKED_LIST_ITEM_ISNULL(self->head)) {
+        /* Nothing to copy. */
+        return tmp;
+    }
     tmp->head = spif_dlinked_list_item_dup(self->head);
     for (src = self->head, dest = tmp->head, prev = (spif_dlinked_list_item_t) NULL;
          src->next;
@@ -519,8 +535,10 @@ spif_dlinked_list_map_dup(spif_dlinked_list_t self)
         dest->next = spif_dlinked_list_item_dup(src->next);
         dest->prev = prev;
     }
+    /* dest is the copy of the last item. */
     dest->next = (spif_dlinked_list_item_t) NULL;
-    tmp->tail = prev;
+    dest->prev = prev;
+    tmp->tail = dest;
     return tmp;
 }
 
